@@ -1,5 +1,6 @@
 import OmplModel.Model.PlannerProto
 import OmplModel.Model.PlannerProtoPrm
+import OmplModel.Model.PlannerProtoInterm
 import OmplModel.Driver.Common
 /-! Line-protocol driver for the planner protocol machine with the RRT-like core (`proto core=rrt`).
 
@@ -27,6 +28,23 @@ propagation step size: `PathControl::length()` is the sum of the control duratio
 inductive St where
   | tree (ctl : Bool) (dt : Float) (m : Mach)
   | prm (p : Prm.Prm)
+  /-- geometric RRT with the goal test computed by the model (`goal` op: goal state and threshold of the current problem
+  definition); `interm`: the intermediate-states core, `lvs` = `longestValidSegment_` of the state space -/
+  | geo (interm : Bool) (lvs : Float) (goal : Option (S × Float)) (m : Mach)
+
+/-- `RealVectorStateSpace::interpolate(from, to, (double)j / (double)count, ·)` -/
+def rvInterp (a b : S) (j count : Nat) : S :=
+  let t : Float := Float.ofNat j / Float.ofNat count
+  (a.zip b).map fun p => p.1 + (p.2 - p.1) * t
+
+/-- `StateSpace::validSegmentCount`: `longestValidSegmentCountFactor_ (= 1) * (unsigned int)ceil(distance / longestValidSegment_)` -/
+def rvSegs (lvs : Float) (a b : S) : Nat := (Float.ceil (rvDist a b / lvs)).toUInt32.toNat
+
+def rvGeom (lvs : Float) : Geom S := { segs := rvSegs lvs, interp := rvInterp }
+
+/-- `GoalState` with threshold over `RealVectorStateSpace::distance` -/
+def rvGoal (goal : S) (thr : Float) : S → Bool × Float :=
+  goalRegion rvDist (fun a b => decide (a < b)) goal thr
 
 /-- control core: every non-root motion has `steps = 1`, so each path segment lasts one propagation step;
 `std::accumulate(durations, 0.0)` -/
@@ -37,6 +55,13 @@ def init (ts : List String) : Option St :=
   match ts with
   | ["proto", "core=prm"] => some (.prm {})
   | ["proto", "core=rrt"] => some (.tree false 0.0 (M.init (rrtCore : CoreSpec S Float (Draw S Float) (Tree S))))
+  | ["proto", "core=rrtg"] => some (.geo false 0.0 none (M.init (rrtCore : CoreSpec S Float (Draw S Float) (Tree S))))
+  | ["proto", "core=rrti", lvs] =>
+    match parseFloatBits? lvs with
+    | some lvs =>
+      if lvs > 0.0 then some (.geo true lvs none (M.init (rrtiCore (rvGeom lvs) : CoreSpec S Float (Draw S Float) (Tree S))))
+      else none
+    | none => none
   | ["proto", "core=crrt", dt] =>
     match parseFloatBits? dt with
     | some dt => some (.tree true dt (M.init (crrtCore : CoreSpec S Float (CDraw S Float) (Tree S))))
@@ -102,6 +127,25 @@ def pDraws? : Nat → List String → Option (List (Draw S Float) × List String
     let (d, r) ← pDraw? ts
     let (ds, r') ← pDraws? n r
     pure (d :: ds, r')
+
+/-- `<near> <valid> <dim> <bits>*dim`: the goal test is NOT on the wire, the model computes it -/
+def pRawDraw? (ts : List String) : Option (RawDraw S × List String) :=
+  match ts with
+  | near :: valid :: rest =>
+    match parseNat? near, takeCounted rest with
+    | some near, some (xs, rest') =>
+      match xs.mapM parseFloatBits? with
+      | some st => if valid = "0" || valid = "1" then some (⟨near, valid = "1", st⟩, rest') else none
+      | none => none
+    | _, _ => none
+  | _ => none
+
+def pGoalDraws? (g : S → Bool × Float) : Nat → List String → Option (List (Draw S Float) × List String)
+  | 0, ts => some ([], ts)
+  | n + 1, ts => do
+    let (d, r) ← pRawDraw? ts
+    let (ds, r') ← pGoalDraws? g n r
+    pure (goalDraw g d :: ds, r')
 
 /-- `<sat> <distbits> <dim> <bits>*dim` -/
 def pPState? (ts : List String) : Option ((S × Bool × Float) × List String) :=
@@ -256,5 +300,25 @@ def step (st : St) (ts : List String) : St × String :=
   | .tree false dt m =>
     let (m', out) := stepG (rrtCore : CoreSpec S Float (Draw S Float) (Tree S)) params pDraws? m ts
     (.tree false dt m', out)
+  | .geo interm lvs goal m =>
+    match ts with
+    | "goal" :: thr :: rest =>
+      -- goal state and threshold of the problem definition the planner now holds (driver state only)
+      match parseFloatBits? thr, takeCounted rest with
+      | some thr, some (xs, []) =>
+        match xs.mapM parseFloatBits? with
+        | some g => (.geo interm lvs (some (g, thr)) m, "goal")
+        | none => (st, "bad-op")
+      | _, _ => (st, "bad-op")
+    | _ =>
+      -- without a goal no draw can be completed: only `solve k 0` parses
+      let pDs : Nat → List String → Option (List (Draw S Float) × List String) :=
+        match goal with
+        | some (g, thr) => pGoalDraws? (rvGoal g thr)
+        | none => fun n ts => if n = 0 then some ([], ts) else none
+      let (m', out) :=
+        if interm then stepG (rrtiCore (rvGeom lvs) : CoreSpec S Float (Draw S Float) (Tree S)) params pDs m ts
+        else stepG (rrtCore : CoreSpec S Float (Draw S Float) (Tree S)) params pDs m ts
+      (.geo interm lvs goal m', out)
 
 end OmplModel.Driver.PlannerProtoDrv
